@@ -22,10 +22,10 @@ import (
 //   ops   0 = Next, 1 = RegExp, 2 = Next followed by RegExp when Next returned '/' or '/='
 // Observation per call: tt, len(data) (-1 for nil), data, Offset(), Pos(), error kind; -1 = panic.
 
-var jsIDStart = []*unicode.RangeTable{unicode.Lu, unicode.Ll, unicode.Lt, unicode.Lm, unicode.Lo, unicode.Nl, unicode.Other_ID_Start}
-var jsIDContinue = []*unicode.RangeTable{unicode.Lu, unicode.Ll, unicode.Lt, unicode.Lm, unicode.Lo, unicode.Nl, unicode.Mn, unicode.Mc, unicode.Nd, unicode.Pc, unicode.Other_ID_Continue}
+var c06JsIDStart = []*unicode.RangeTable{unicode.Lu, unicode.Ll, unicode.Lt, unicode.Lm, unicode.Lo, unicode.Nl, unicode.Other_ID_Start}
+var c06JsIDContinue = []*unicode.RangeTable{unicode.Lu, unicode.Ll, unicode.Lt, unicode.Lm, unicode.Lo, unicode.Nl, unicode.Mn, unicode.Mc, unicode.Nd, unicode.Pc, unicode.Other_ID_Continue}
 
-func jsRuneTable(d []byte) []int64 {
+func c06JsRuneTable(d []byte) []int64 {
 	cp := make([]byte, len(d))
 	copy(cp, d)
 	in := parse.NewInputBytes(cp)
@@ -41,10 +41,10 @@ func jsRuneTable(d []byte) []int64 {
 		}
 		seen[r] = true
 		f := int64(0)
-		if unicode.IsOneOf(jsIDStart, r) {
+		if unicode.IsOneOf(c06JsIDStart, r) {
 			f |= 1
 		}
-		if unicode.IsOneOf(jsIDContinue, r) {
+		if unicode.IsOneOf(c06JsIDContinue, r) {
 			f |= 2
 		}
 		if unicode.Is(unicode.Zs, r) {
@@ -55,8 +55,8 @@ func jsRuneTable(d []byte) []int64 {
 	return out
 }
 
-func jsCase(d []byte, ops []int64, note string) Case {
-	tab := jsRuneTable(d)
+func c06JsCase(d []byte, ops []int64, note string) Case {
+	tab := c06JsRuneTable(d)
 	args := []int64{int64(len(tab))}
 	args = append(args, tab...)
 	args = append(args, bytesToArgs(d)...)
@@ -69,13 +69,13 @@ func jsCase(d []byte, ops []int64, note string) Case {
 	return Case{Fn: "jslex", Args: args, Note: note}
 }
 
-func jsCaseParts(c Case) (d []byte, ops []int64) {
+func c06JsCaseParts(c Case) (d []byte, ops []int64) {
 	_, rest := takeList(c.Args)
 	dv, ops := takeList(rest)
 	return toBytes(dv), ops
 }
 
-func jsErrKind(e error) int64 {
+func c06JsErrKind(e error) int64 {
 	if e == nil {
 		return 0
 	}
@@ -110,8 +110,8 @@ func jsErrKind(e error) int64 {
 	return 98
 }
 
-func jsImpl(c Case) []int64 {
-	d, ops := jsCaseParts(c)
+func c06JsImpl(c Case) []int64 {
+	d, ops := c06JsCaseParts(c)
 	in := parse.NewInputBytes(d)
 	l := js.NewLexer(in)
 	var out []int64
@@ -125,7 +125,7 @@ func jsImpl(c Case) []int64 {
 				out = append(out, int64(b))
 			}
 		}
-		out = append(out, int64(in.Offset()), int64(in.Pos()), jsErrKind(l.Err()))
+		out = append(out, int64(in.Offset()), int64(in.Pos()), c06JsErrKind(l.Err()))
 	}
 	for _, o := range ops {
 		var tt js.TokenType
@@ -150,7 +150,7 @@ func jsImpl(c Case) []int64 {
 	return out
 }
 
-func repOps(o int64, n int) []int64 {
+func c06RepOps(o int64, n int) []int64 {
 	ops := make([]int64, n)
 	for i := range ops {
 		ops[i] = o
@@ -160,36 +160,36 @@ func repOps(o int64, n int) []int64 {
 
 // ---- token generators (shared by the correspondence generator and the oracles) -------------------
 
-type jsTok struct {
+type c06JsTok struct {
 	tt   js.TokenType
 	text string
 }
 
 // every punctuator / operator spelling the lexer can return, with its type looked up by Bytes()
-var jsPunct = func() []jsTok {
-	var out []jsTok
+var c06JsPunct = func() []c06JsTok {
+	var out []c06JsTok
 	for tt := js.TokenType(0x0201); tt <= js.EllipsisToken; tt++ {
-		out = append(out, jsTok{tt, string(tt.Bytes())})
+		out = append(out, c06JsTok{tt, string(tt.Bytes())})
 	}
 	for tt := js.TokenType(0x0601); tt <= js.OptChainToken; tt++ {
-		out = append(out, jsTok{tt, string(tt.Bytes())})
+		out = append(out, c06JsTok{tt, string(tt.Bytes())})
 	}
 	return out
 }()
 
-var jsKeywordList = func() []jsTok {
-	var out []jsTok
+var c06JsKeywordList = func() []c06JsTok {
+	var out []c06JsTok
 	for k, v := range js.Keywords {
-		out = append(out, jsTok{v, k})
+		out = append(out, c06JsTok{v, k})
 	}
 	sort.Slice(out, func(i, j int) bool { return out[i].text < out[j].text })
 	return out
 }()
 
-var jsIdentStartRunes = []rune{'a', 'Z', '$', '_', '\u00E9', '\u03C0', '\u01C5', '\u02B0', '\u540D', '\u2182', 0x1D49C, 0x2118, 'x', 'n', 'e'}
-var jsIdentContRunes = []rune{'a', 'Z', '$', '_', '0', '9', '\u00E9', '\u540D', 0x0301, 0x0903, '\u0663', '\u203F', 0x200C, 0x200D, 0x00B7, 0x1D49C, 'u'}
+var c06JsIdentStartRunes = []rune{'a', 'Z', '$', '_', '\u00E9', '\u03C0', '\u01C5', '\u02B0', '\u540D', '\u2182', 0x1D49C, 0x2118, 'x', 'n', 'e'}
+var c06JsIdentContRunes = []rune{'a', 'Z', '$', '_', '0', '9', '\u00E9', '\u540D', 0x0301, 0x0903, '\u0663', '\u203F', 0x200C, 0x200D, 0x00B7, 0x1D49C, 'u'}
 
-func genJsIdent(r *Rng) string {
+func c06GenJsIdent(r *Rng) string {
 	var sb strings.Builder
 	esc := func(c rune) {
 		switch r.Intn(3) {
@@ -201,7 +201,7 @@ func genJsIdent(r *Rng) string {
 			fmt.Fprintf(&sb, "\\u{%06x}", c)
 		}
 	}
-	c := jsIdentStartRunes[r.Intn(len(jsIdentStartRunes))]
+	c := c06JsIdentStartRunes[r.Intn(len(c06JsIdentStartRunes))]
 	if r.Chance(1, 6) && c <= 0xFFFF {
 		esc(c)
 	} else {
@@ -209,7 +209,7 @@ func genJsIdent(r *Rng) string {
 	}
 	n := r.Intn(6)
 	for i := 0; i < n; i++ {
-		c := jsIdentContRunes[r.Intn(len(jsIdentContRunes))]
+		c := c06JsIdentContRunes[r.Intn(len(c06JsIdentContRunes))]
 		if r.Chance(1, 8) && c <= 0xFFFF {
 			esc(c)
 		} else {
@@ -219,7 +219,7 @@ func genJsIdent(r *Rng) string {
 	return sb.String()
 }
 
-func genDigits(r *Rng, digs string, min int) string {
+func c06GenDigits(r *Rng, digs string, min int) string {
 	var sb strings.Builder
 	n := min + r.Intn(4)
 	for i := 0; i < n; i++ {
@@ -231,61 +231,61 @@ func genDigits(r *Rng, digs string, min int) string {
 	return sb.String()
 }
 
-func genJsNumber(r *Rng) jsTok {
+func c06GenJsNumber(r *Rng) c06JsTok {
 	switch r.Intn(9) {
 	case 0:
 		p := r.PickStr([]string{"0x", "0X"})
-		s := p + genDigits(r, "0123456789abcdefABCDEF", 1)
+		s := p + c06GenDigits(r, "0123456789abcdefABCDEF", 1)
 		if r.Chance(1, 3) {
 			s += "n"
 		}
-		return jsTok{js.HexadecimalToken, s}
+		return c06JsTok{js.HexadecimalToken, s}
 	case 1:
-		s := r.PickStr([]string{"0b", "0B"}) + genDigits(r, "01", 1)
+		s := r.PickStr([]string{"0b", "0B"}) + c06GenDigits(r, "01", 1)
 		if r.Chance(1, 3) {
 			s += "n"
 		}
-		return jsTok{js.BinaryToken, s}
+		return c06JsTok{js.BinaryToken, s}
 	case 2:
-		s := r.PickStr([]string{"0o", "0O"}) + genDigits(r, "01234567", 1)
+		s := r.PickStr([]string{"0o", "0O"}) + c06GenDigits(r, "01234567", 1)
 		if r.Chance(1, 3) {
 			s += "n"
 		}
-		return jsTok{js.OctalToken, s}
+		return c06JsTok{js.OctalToken, s}
 	case 3:
-		return jsTok{js.IntegerToken, r.PickStr([]string{"0", "0n", "7", "9n"})}
+		return c06JsTok{js.IntegerToken, r.PickStr([]string{"0", "0n", "7", "9n"})}
 	case 4:
-		s := string("123456789"[r.Intn(9)]) + genDigits(r, "0123456789", 0)
+		s := string("123456789"[r.Intn(9)]) + c06GenDigits(r, "0123456789", 0)
 		if strings.HasSuffix(s, "_") {
 			s += "0"
 		}
 		if r.Chance(1, 3) {
 			s += "n"
 		}
-		return jsTok{js.IntegerToken, s}
+		return c06JsTok{js.IntegerToken, s}
 	}
 	// decimal forms
 	var s string
 	switch r.Intn(4) {
 	case 0:
-		s = "." + genDigits(r, "0123456789", 1)
+		s = "." + c06GenDigits(r, "0123456789", 1)
 	case 1:
 		s = r.PickStr([]string{"0", "5", "12", "1_0"}) + "."
 	case 2:
-		s = r.PickStr([]string{"0", "5", "12", "9_9"}) + "." + genDigits(r, "0123456789", 1)
+		s = r.PickStr([]string{"0", "5", "12", "9_9"}) + "." + c06GenDigits(r, "0123456789", 1)
 	default:
 		s = r.PickStr([]string{"0", "5", "12", "3_4"})
 	}
 	if r.Bool() || !strings.Contains(s, ".") {
-		s += r.PickStr([]string{"e", "E"}) + r.PickStr([]string{"", "+", "-"}) + genDigits(r, "0123456789", 1)
+		s += r.PickStr([]string{"e", "E"}) + r.PickStr([]string{"", "+", "-"}) + c06GenDigits(r, "0123456789", 1)
 	}
-	return jsTok{js.DecimalToken, s}
+	return c06JsTok{js.DecimalToken, s}
 }
 
-var jsStringPieces = []string{"a", " ", "x1", "\u00E9", "\u540D", "\u2028", "\u2029", "\\n", "\\\\", "\\'", "\\\"", "\\x41", "\\u0041", "\\u{1F600}",
+var c06JsStringPieces = []string{"a", " ", "x1", "\u00E9", "\u540D", "\u2028", "\u2029", "\\n", "\\\\", "\\'", "\\\"", "\\x41", "\\u0041", "\\u{1F600}",
 	"\\\n", "\\\r", "\\\r\n", "\\\u2028", "\\\u2029", "\\0", "/", "*/", "//", "${", "`", "\x00", "\\\\\\\\", "\\a"}
 
-func genJsString(r *Rng) string {
+func c06GenJsString(r *Rng) string {
 	q := r.PickStr([]string{"'", "\""})
 	other := "\""
 	if q == "\"" {
@@ -298,21 +298,21 @@ func genJsString(r *Rng) string {
 		if r.Chance(1, 8) {
 			sb.WriteString(other)
 		} else {
-			sb.WriteString(r.PickStr(jsStringPieces))
+			sb.WriteString(r.PickStr(c06JsStringPieces))
 		}
 	}
 	sb.WriteString(q)
 	return sb.String()
 }
 
-var jsTemplatePieces = []string{"a", " ", "\n", "\r\n", "\u00E9", "\u540D", "$", "$$", "{", "}", "\\`", "\\$", "\\\\", "\\${", "'", "\"", "//", "/*", "\u2028", "\\u0041", "$ {", "\x00x"}
+var c06JsTemplatePieces = []string{"a", " ", "\n", "\r\n", "\u00E9", "\u540D", "$", "$$", "{", "}", "\\`", "\\$", "\\\\", "\\${", "'", "\"", "//", "/*", "\u2028", "\\u0041", "$ {", "\x00x"}
 
-func genJsTemplateChars(r *Rng) string {
+func c06GenJsTemplateChars(r *Rng) string {
 	var sb strings.Builder
 	n := r.Intn(5)
 	last := byte(0)
 	for i := 0; i < n; i++ {
-		p := r.PickStr(jsTemplatePieces)
+		p := r.PickStr(c06JsTemplatePieces)
 		if last == '$' && p[0] == '{' {
 			sb.WriteByte('a') // "$" + "{" from two pieces would open a substitution
 		}
@@ -322,30 +322,30 @@ func genJsTemplateChars(r *Rng) string {
 	return sb.String()
 }
 
-var jsWsPieces = []string{" ", "\t", "\v", "\f", "\u00A0", "\uFEFF", "\u2003", "\u3000", "\u1680", "  "}
-var jsLtPieces = []string{"\n", "\r", "\r\n", "\u2028", "\u2029", "\n\n", "\r\r\n"}
-var jsCommentBody = []string{"", "c", " x ", "\u00E9\u540D", "*", "/", "/*", "//", "'", "`", "${", "-->", "<!--", "* /", "\x00"}
+var c06JsWsPieces = []string{" ", "\t", "\v", "\f", "\u00A0", "\uFEFF", "\u2003", "\u3000", "\u1680", "  "}
+var c06JsLtPieces = []string{"\n", "\r", "\r\n", "\u2028", "\u2029", "\n\n", "\r\r\n"}
+var c06JsCommentBody = []string{"", "c", " x ", "\u00E9\u540D", "*", "/", "/*", "//", "'", "`", "${", "-->", "<!--", "* /", "\x00"}
 
-// jsSeq builds a token sequence together with its source.
-type jsSeq struct {
+// c06JsSeq builds a token sequence together with its source.
+type c06JsSeq struct {
 	r        *Rng
-	toks     []jsTok
+	toks     []c06JsTok
 	src      strings.Builder
 	lineHead bool // only whitespace since the last line terminator (or the start)
 	lastSep  int  // 0 none, 1 ws, 2 lt, 3 multi-line comment, 4 single-line comment (needs lt next)
 }
 
-func (g *jsSeq) put(tt js.TokenType, text string) {
+func (g *c06JsSeq) put(tt js.TokenType, text string) {
 	// adjacent whitespace (or line terminators) are one token
 	if n := len(g.toks); n > 0 && g.toks[n-1].tt == tt && (tt == js.WhitespaceToken || tt == js.LineTerminatorToken) {
 		g.toks[n-1].text += text
 	} else {
-		g.toks = append(g.toks, jsTok{tt, text})
+		g.toks = append(g.toks, c06JsTok{tt, text})
 	}
 	g.src.WriteString(text)
 }
 
-func (g *jsSeq) lastByte() byte {
+func (g *c06JsSeq) lastByte() byte {
 	s := g.src.String()
 	if len(s) == 0 {
 		return 0
@@ -354,7 +354,7 @@ func (g *jsSeq) lastByte() byte {
 }
 
 // sep emits a separator: whitespace, line terminators, comments; at least one element when must.
-func (g *jsSeq) sep(must bool) {
+func (g *c06JsSeq) sep(must bool) {
 	r := g.r
 	n := r.Intn(3)
 	if must && n == 0 {
@@ -376,16 +376,16 @@ func (g *jsSeq) sep(must bool) {
 		}
 		switch k {
 		case 1:
-			g.put(js.WhitespaceToken, r.PickStr(jsWsPieces))
+			g.put(js.WhitespaceToken, r.PickStr(c06JsWsPieces))
 		case 2:
-			g.put(js.LineTerminatorToken, r.PickStr(jsLtPieces))
+			g.put(js.LineTerminatorToken, r.PickStr(c06JsLtPieces))
 			g.lineHead = true
 		case 3:
-			body := r.PickStr(jsCommentBody) + r.PickStr(jsCommentBody)
+			body := r.PickStr(c06JsCommentBody) + r.PickStr(c06JsCommentBody)
 			body = strings.ReplaceAll(body, "*/", "* /")
 			tt := js.CommentToken
 			if r.Chance(1, 3) {
-				body += r.PickStr(jsLtPieces) + r.PickStr(jsCommentBody)
+				body += r.PickStr(c06JsLtPieces) + r.PickStr(c06JsCommentBody)
 				body = strings.ReplaceAll(body, "*/", "* /")
 				tt = js.CommentLineTerminatorToken
 				g.lineHead = true
@@ -394,11 +394,11 @@ func (g *jsSeq) sep(must bool) {
 			}
 			g.put(tt, "/*"+body+"*/")
 		case 4:
-			body := r.PickStr(jsCommentBody) + r.PickStr(jsCommentBody)
+			body := r.PickStr(c06JsCommentBody) + r.PickStr(c06JsCommentBody)
 			g.put(js.CommentToken, "//"+body)
 			g.lineHead = false
 		default:
-			body := r.PickStr(jsCommentBody)
+			body := r.PickStr(c06JsCommentBody)
 			if g.lineHead && r.Bool() {
 				g.put(js.CommentToken, "-->"+body)
 			} else {
@@ -410,14 +410,14 @@ func (g *jsSeq) sep(must bool) {
 		g.lastSep = k
 	}
 	if g.lastSep == 4 {
-		g.put(js.LineTerminatorToken, r.PickStr(jsLtPieces))
+		g.put(js.LineTerminatorToken, r.PickStr(c06JsLtPieces))
 		g.lineHead = true
 		g.lastSep = 2
 	}
 }
 
 // tokens that never merge with a neighbour: ( ) [ ] { } ; , : and the template delimiters
-func jsSafeLeft(t jsTok) bool {
+func c06JsSafeLeft(t c06JsTok) bool {
 	switch t.tt {
 	case js.OpenParenToken, js.CloseParenToken, js.OpenBracketToken, js.CloseBracketToken, js.OpenBraceToken, js.CloseBraceToken,
 		js.SemicolonToken, js.CommaToken, js.ColonToken, js.TemplateStartToken, js.TemplateMiddleToken:
@@ -426,7 +426,7 @@ func jsSafeLeft(t jsTok) bool {
 	return false
 }
 
-func jsSafeRight(tt js.TokenType) bool {
+func c06JsSafeRight(tt js.TokenType) bool {
 	switch tt {
 	case js.OpenParenToken, js.CloseParenToken, js.OpenBracketToken, js.CloseBracketToken, js.OpenBraceToken, js.CloseBraceToken,
 		js.SemicolonToken, js.CommaToken, js.ColonToken, js.TemplateMiddleToken, js.TemplateEndToken:
@@ -436,11 +436,11 @@ func jsSafeRight(tt js.TokenType) bool {
 }
 
 // unit emits a non-separator token, first separating it from the previous one where needed.
-func (g *jsSeq) unit(tt js.TokenType, text string) {
+func (g *c06JsSeq) unit(tt js.TokenType, text string) {
 	need := true
 	if g.src.Len() == 0 || g.lastSep != 0 {
 		need = false
-	} else if jsSafeLeft(g.toks[len(g.toks)-1]) || jsSafeRight(tt) {
+	} else if c06JsSafeLeft(g.toks[len(g.toks)-1]) || c06JsSafeRight(tt) {
 		need = false
 	}
 	if need || (g.lastSep == 0 && g.r.Chance(1, 3)) {
@@ -452,32 +452,32 @@ func (g *jsSeq) unit(tt js.TokenType, text string) {
 }
 
 // item emits one expression-like item; braces and parentheses only in balanced form when inTpl.
-func (g *jsSeq) item(depth int, inTpl bool) {
+func (g *c06JsSeq) item(depth int, inTpl bool) {
 	r := g.r
 	switch k := r.Intn(14); {
 	case k <= 2:
-		id := genJsIdent(r)
+		id := c06GenJsIdent(r)
 		if tt, ok := js.Keywords[id]; ok {
 			g.unit(tt, id)
 		} else {
 			g.unit(js.IdentifierToken, id)
 		}
 	case k == 3:
-		kw := jsKeywordList[r.Intn(len(jsKeywordList))]
+		kw := c06JsKeywordList[r.Intn(len(c06JsKeywordList))]
 		g.unit(kw.tt, kw.text)
 	case k <= 6:
-		p := jsPunct[r.Intn(len(jsPunct))]
+		p := c06JsPunct[r.Intn(len(c06JsPunct))]
 		if strings.ContainsAny(p.text, "(){}") && (inTpl || r.Bool()) {
-			p = jsPunct[6+r.Intn(7)] // . ; , ? : => ...
+			p = c06JsPunct[6+r.Intn(7)] // . ; , ? : => ...
 		}
 		g.unit(p.tt, p.text)
 	case k <= 8:
-		n := genJsNumber(r)
+		n := c06GenJsNumber(r)
 		g.unit(n.tt, n.text)
 	case k == 9:
-		g.unit(js.StringToken, genJsString(r))
+		g.unit(js.StringToken, c06GenJsString(r))
 	case k == 10:
-		g.unit(js.PrivateIdentifierToken, "#"+genJsIdent(r))
+		g.unit(js.PrivateIdentifierToken, "#"+c06GenJsIdent(r))
 	case k == 11 && depth < 3:
 		// balanced group
 		if r.Bool() {
@@ -496,32 +496,32 @@ func (g *jsSeq) item(depth int, inTpl bool) {
 	}
 }
 
-func (g *jsSeq) items(n, depth int, inTpl bool) {
+func (g *c06JsSeq) items(n, depth int, inTpl bool) {
 	for i := 0; i < n; i++ {
 		g.item(depth, inTpl)
 	}
 }
 
-func (g *jsSeq) template(depth int) {
+func (g *c06JsSeq) template(depth int) {
 	r := g.r
 	nsub := r.Intn(3)
 	if nsub == 0 {
-		g.unit(js.TemplateToken, "`"+genJsTemplateChars(r)+"`")
+		g.unit(js.TemplateToken, "`"+c06GenJsTemplateChars(r)+"`")
 		return
 	}
-	g.unit(js.TemplateStartToken, "`"+genJsTemplateChars(r)+"${")
+	g.unit(js.TemplateStartToken, "`"+c06GenJsTemplateChars(r)+"${")
 	for i := 0; i < nsub; i++ {
 		g.items(r.Intn(3), depth+1, true)
 		if i+1 < nsub {
-			g.unit(js.TemplateMiddleToken, "}"+genJsTemplateChars(r)+"${")
+			g.unit(js.TemplateMiddleToken, "}"+c06GenJsTemplateChars(r)+"${")
 		} else {
-			g.unit(js.TemplateEndToken, "}"+genJsTemplateChars(r)+"`")
+			g.unit(js.TemplateEndToken, "}"+c06GenJsTemplateChars(r)+"`")
 		}
 	}
 }
 
-func genJsSeq(r *Rng, n int) ([]jsTok, string) {
-	g := &jsSeq{r: r, lineHead: true}
+func c06GenJsSeq(r *Rng, n int) ([]c06JsTok, string) {
+	g := &c06JsSeq{r: r, lineHead: true}
 	if r.Chance(1, 4) {
 		g.sep(true)
 	}
@@ -533,13 +533,13 @@ func genJsSeq(r *Rng, n int) ([]jsTok, string) {
 }
 
 // well-formed regular expression literal: body and flags
-var jsRegexPieces = []string{"a", "b+", ".", "\\/", "\\\\", "[/]", "[a/b]", "[\\]/]", "[^/\\]]", "(x)", "\\d", "\u00E9", "\u540D", "[[]", "]", "\\[", "{1,2}", "=", "*", "?", "\\u0041", "\x00", "$", "^", "|", " ", "'", "`", "[\\\\]"}
+var c06JsRegexPieces = []string{"a", "b+", ".", "\\/", "\\\\", "[/]", "[a/b]", "[\\]/]", "[^/\\]]", "(x)", "\\d", "\u00E9", "\u540D", "[[]", "]", "\\[", "{1,2}", "=", "*", "?", "\\u0041", "\x00", "$", "^", "|", " ", "'", "`", "[\\\\]"}
 
-func genJsRegex(r *Rng, afterEq bool) string {
+func c06GenJsRegex(r *Rng, afterEq bool) string {
 	var sb strings.Builder
 	n := 1 + r.Intn(5)
 	for i := 0; i < n; i++ {
-		p := r.PickStr(jsRegexPieces)
+		p := r.PickStr(c06JsRegexPieces)
 		if i == 0 && !afterEq && (p[0] == '*' || p[0] == '=' || p == "\\/" && false) {
 			p = "a" // "/*" would be a comment and "/=" another token
 		}
@@ -558,26 +558,26 @@ func genJsRegex(r *Rng, afterEq bool) string {
 
 // ---- correspondence generator -------------------------------------------------------------------
 
-var jsAlphabet = []byte{'a', 'u', 'n', 'e', 'x', '0', '1', '_', '.', '/', '*', '\\', '{', '}', '`', '$', '\'', '"', '\n', '\r', ' ',
+var c06JsAlphabet = []byte{'a', 'u', 'n', 'e', 'x', '0', '1', '_', '.', '/', '*', '\\', '{', '}', '`', '$', '\'', '"', '\n', '\r', ' ',
 	'=', '<', '>', '!', '-', '?', '#', '[', '+', 0x00, 0xE2, 0x80, 0xA8, 0xC2, 0xA0}
 
 // spellings for the all-pairs sweep (every pair is lexed with no separator in between)
-var jsVocabulary = func() []string {
+var c06JsVocabulary = func() []string {
 	v := []string{"a", "if", "in", "$", "\\u0061", "\u00E9", "0", "1", "1n", "0x1", "0b1", "0o7", ".5", "1.", "1e1", "1_0", "0.", "00",
 		"'s'", "\"s\"", "'\\", "`t`", "`t${", "}t${", "}t`", "//c", "/*c*/", "/*\n*/", "/*", "<!--c", "-->c", " ", "\t", "\n", "\r", "\u2028",
 		"\u00A0", "#a", "#", "\\", "\x00", "\xE2", "\xE2\x80", "\x80", "\xFF", "e", "n", "x", "_", "u", "/a/", "[", "]"}
-	for _, p := range jsPunct {
+	for _, p := range c06JsPunct {
 		v = append(v, p.text)
 	}
 	return v
 }()
 
-func mutateJs(r *Rng, s []byte) []byte {
+func c06MutateJs(r *Rng, s []byte) []byte {
 	out := append([]byte{}, s...)
 	n := 1 + r.Intn(3)
 	for i := 0; i < n; i++ {
 		if len(out) == 0 {
-			out = append(out, r.Pick(jsAlphabet))
+			out = append(out, r.Pick(c06JsAlphabet))
 			continue
 		}
 		p := r.Intn(len(out))
@@ -594,7 +594,7 @@ func mutateJs(r *Rng, s []byte) []byte {
 		case 4:
 			out = out[:p]
 		case 5:
-			out = append(out[:p], append([]byte{r.Pick(jsAlphabet)}, out[p:]...)...)
+			out = append(out[:p], append([]byte{r.Pick(c06JsAlphabet)}, out[p:]...)...)
 		case 6:
 			q := r.Intn(len(out))
 			if p > q {
@@ -602,7 +602,7 @@ func mutateJs(r *Rng, s []byte) []byte {
 			}
 			out = append(out[:q], append(append([]byte{}, out[p:q]...), out[q:]...)...)
 		default:
-			out[p] = r.Pick(jsAlphabet)
+			out[p] = r.Pick(c06JsAlphabet)
 		}
 	}
 	if len(out) > 400 {
@@ -611,10 +611,10 @@ func mutateJs(r *Rng, s []byte) []byte {
 	return out
 }
 
-func genJsOps(r *Rng, n int) []int64 {
+func c06GenJsOps(r *Rng, n int) []int64 {
 	switch r.Intn(4) {
 	case 0:
-		return repOps(0, n)
+		return c06RepOps(0, n)
 	case 1:
 		ops := make([]int64, n)
 		for i := range ops {
@@ -622,10 +622,10 @@ func genJsOps(r *Rng, n int) []int64 {
 		}
 		return ops
 	}
-	return repOps(2, n)
+	return c06RepOps(2, n)
 }
 
-func jsNumCalls(d []byte) int {
+func c06JsNumCalls(d []byte) int {
 	n := len(d) + 2
 	if n > 120 {
 		n = 120
@@ -633,7 +633,7 @@ func jsNumCalls(d []byte) int {
 	return n
 }
 
-var jslexModel = &Model{
+var c06JslexModel = &Model{
 	Name: "jslex",
 	Gen: func(r *Rng, tier string, emit func(Case)) {
 		// (a) exhaustive small scope
@@ -641,22 +641,22 @@ var jslexModel = &Model{
 		if tier == "thorough" {
 			k = 4
 		}
-		allStrings(jsAlphabet, k, func(d []byte) {
-			emit(jsCase(d, repOps(2, len(d)+2), "exh"))
+		allStrings(c06JsAlphabet, k, func(d []byte) {
+			emit(c06JsCase(d, c06RepOps(2, len(d)+2), "exh"))
 			if bytes.IndexByte(d, '/') >= 0 {
-				emit(jsCase(d, repOps(0, len(d)+2), "exh"))
+				emit(c06JsCase(d, c06RepOps(0, len(d)+2), "exh"))
 			}
 		})
 		// (b) every pair of vocabulary spellings without a separator, and after a number
-		for _, a := range jsVocabulary {
-			for _, b := range jsVocabulary {
+		for _, a := range c06JsVocabulary {
+			for _, b := range c06JsVocabulary {
 				d := []byte(a + b)
-				emit(jsCase(d, repOps(2, len(d)+2), "pair"))
+				emit(c06JsCase(d, c06RepOps(2, len(d)+2), "pair"))
 			}
 			d := []byte("`${" + a + "}` " + a)
-			emit(jsCase(d, repOps(0, len(d)+2), "intpl"))
+			emit(c06JsCase(d, c06RepOps(0, len(d)+2), "intpl"))
 			d = []byte(a + "/x/g")
-			emit(jsCase(d, append(repOps(0, 1), repOps(2, len(d))...), "re"))
+			emit(c06JsCase(d, append(c06RepOps(0, 1), c06RepOps(2, len(d))...), "re"))
 		}
 		// (c) structured token sequences, (d) malformed
 		n := 3000
@@ -664,32 +664,32 @@ var jslexModel = &Model{
 			n = 60000
 		}
 		for i := 0; i < n; i++ {
-			_, src := genJsSeq(r, 1+i%9)
+			_, src := c06GenJsSeq(r, 1+i%9)
 			d := []byte(src)
 			if r.Chance(1, 4) {
-				re := genJsRegex(r, r.Chance(1, 4))
+				re := c06GenJsRegex(r, r.Chance(1, 4))
 				d = []byte(src + r.PickStr([]string{"", " ", "=", "("}) + re + r.PickStr([]string{"", ";", " a", "\n"}))
 			}
-			emit(jsCase(d, genJsOps(r, jsNumCalls(d)), "seq"))
-			m := mutateJs(r, d)
-			emit(jsCase(m, genJsOps(r, jsNumCalls(m)), "mut"))
+			emit(c06JsCase(d, c06GenJsOps(r, c06JsNumCalls(d)), "seq"))
+			m := c06MutateJs(r, d)
+			emit(c06JsCase(m, c06GenJsOps(r, c06JsNumCalls(m)), "mut"))
 			if i%3 == 0 {
-				m2 := mutateJs(r, m)
-				emit(jsCase(m2, genJsOps(r, jsNumCalls(m2)), "mut"))
+				m2 := c06MutateJs(r, m)
+				emit(c06JsCase(m2, c06GenJsOps(r, c06JsNumCalls(m2)), "mut"))
 			}
 		}
 	},
-	Impl: jsImpl,
+	Impl: c06JsImpl,
 	Shrink: func(c Case) []Case {
-		d, ops := jsCaseParts(c)
+		d, ops := c06JsCaseParts(c)
 		var out []Case
 		for i := range d {
 			nd := append(append([]byte{}, d[:i]...), d[i+1:]...)
-			out = append(out, jsCase(nd, ops, "shrunk"))
+			out = append(out, c06JsCase(nd, ops, "shrunk"))
 		}
 		if len(ops) > 1 {
-			out = append(out, jsCase(d, ops[:len(ops)-1], "shrunk"))
-			out = append(out, jsCase(d, ops[1:], "shrunk"))
+			out = append(out, c06JsCase(d, ops[:len(ops)-1], "shrunk"))
+			out = append(out, c06JsCase(d, ops[1:], "shrunk"))
 		}
 		return out
 	},
@@ -699,7 +699,7 @@ var jslexModel = &Model{
 		if len(out) > 0 && out[len(out)-1] == -1 {
 			res = "panic"
 		} else {
-			d, _ := jsCaseParts(c)
+			d, _ := c06JsCaseParts(c)
 			if !utf8.Valid(d) {
 				res = "badutf8"
 			} else if len(out) > 0 && out[len(out)-1] > 1 {
@@ -712,14 +712,14 @@ var jslexModel = &Model{
 
 // ---- oracles: the property text checked directly on the implementation ---------------------------
 
-type jsLexed struct {
+type c06JsLexed struct {
 	tt   js.TokenType
 	data []byte
 	off  int // Offset() after the call
 }
 
-// jsLexAll runs Next until an ErrorToken (included) or max calls.
-func jsLexAll(d []byte, regexAfterSlash bool) (toks []jsLexed, err error, panicked interface{}) {
+// c06JsLexAll runs Next until an ErrorToken (included) or max calls.
+func c06JsLexAll(d []byte, regexAfterSlash bool) (toks []c06JsLexed, err error, panicked interface{}) {
 	in := parse.NewInputBytes(append(make([]byte, 0, len(d)+1), d...))
 	l := js.NewLexer(in)
 	panicked = catch(func() {
@@ -728,7 +728,7 @@ func jsLexAll(d []byte, regexAfterSlash bool) (toks []jsLexed, err error, panick
 			if regexAfterSlash && (tt == js.DivToken || tt == js.DivEqToken) {
 				tt, data = l.RegExp()
 			}
-			toks = append(toks, jsLexed{tt, data, in.Offset()})
+			toks = append(toks, c06JsLexed{tt, data, in.Offset()})
 			if tt == js.ErrorToken {
 				err = l.Err()
 				return
@@ -738,14 +738,14 @@ func jsLexAll(d []byte, regexAfterSlash bool) (toks []jsLexed, err error, panick
 	return
 }
 
-func jsHasLT(b []byte) bool {
+func c06JsHasLT(b []byte) bool {
 	return bytes.ContainsAny(b, "\n\r") || bytes.Contains(b, []byte("\u2028")) || bytes.Contains(b, []byte("\u2029"))
 }
 
 // checks that hold for every input: tiling, canonical types, comment kind, re-lexing (valid UTF-8)
-func jsCheckGeneric(d []byte, rep *Report, bucket string) {
+func c06JsCheckGeneric(d []byte, rep *Report, bucket string) {
 	replay := map[string]interface{}{"input": q(d), "hex": hx(d)}
-	toks, err, p := jsLexAll(d, false)
+	toks, err, p := c06JsLexAll(d, false)
 	if p != nil {
 		rep.Violate("c06-panic:"+hx(d), fmt.Sprintf("Next panics on %q: %v", d, p), replay)
 		return
@@ -775,18 +775,18 @@ func jsCheckGeneric(d []byte, rep *Report, bucket string) {
 			}
 		}
 		// comment kind
-		if t.tt == js.CommentLineTerminatorToken && !jsHasLT(t.data) {
+		if t.tt == js.CommentLineTerminatorToken && !c06JsHasLT(t.data) {
 			rep.Violate("c06-comment-lt:"+hx(d), fmt.Sprintf("CommentLineTerminatorToken %q contains no line terminator", t.data), replay)
 		}
-		if t.tt == js.CommentToken && valid && bytes.HasPrefix(t.data, []byte("/*")) && jsHasLT(t.data) {
+		if t.tt == js.CommentToken && valid && bytes.HasPrefix(t.data, []byte("/*")) && c06JsHasLT(t.data) {
 			rep.Violate("c06-comment-lt:"+hx(d), fmt.Sprintf("CommentToken %q contains a line terminator", t.data), replay)
 		}
 		// re-lexing the token text on its own (valid UTF-8 only: a truncated sequence decodes differently)
 		if valid {
-			sub, _, p2 := jsLexAll(t.data, false)
+			sub, _, p2 := c06JsLexAll(t.data, false)
 			ok := p2 == nil && len(sub) == 2 && sub[0].tt == t.tt && bytes.Equal(sub[0].data, t.data) && sub[1].tt == js.ErrorToken
 			if !ok {
-				key := "c06-relex:" + jsTTName(t.tt)
+				key := "c06-relex:" + c06JsTTName(t.tt)
 				if t.tt != js.TemplateMiddleToken && t.tt != js.TemplateEndToken {
 					key += ":" + hx(t.data)
 				}
@@ -805,7 +805,7 @@ func jsCheckGeneric(d []byte, rep *Report, bucket string) {
 	rep.Eval(hx(d), len(toks) > 2, bucket)
 }
 
-func jsTTName(tt js.TokenType) string {
+func c06JsTTName(tt js.TokenType) string {
 	switch tt {
 	case js.TemplateMiddleToken:
 		return "TemplateMiddle"
@@ -822,9 +822,9 @@ func c06Oracle(r *Rng, tier string, rep *Report) {
 		n = 300000
 	}
 	for it := 0; it < n; it++ {
-		want, src := genJsSeq(r, 1+it%12)
+		want, src := c06GenJsSeq(r, 1+it%12)
 		d := []byte(src)
-		got, err, p := jsLexAll(d, false)
+		got, err, p := c06JsLexAll(d, false)
 		replay := map[string]interface{}{"input": q(d), "hex": hx(d)}
 		bad := ""
 		if p != nil {
@@ -847,14 +847,14 @@ func c06Oracle(r *Rng, tier string, rep *Report) {
 			}
 			key := "c06-seq:end"
 			if k < len(want) {
-				key = "c06-seq:" + jsTTName(want[k].tt) + ":" + hx([]byte(want[k].text))
+				key = "c06-seq:" + c06JsTTName(want[k].tt) + ":" + hx([]byte(want[k].text))
 			}
 			rep.Violate(key, fmt.Sprintf("token sequence %q: %s", d, bad), replay)
 		}
 		rep.Eval(hx(d), len(want) >= 2, "seq")
 		if it%4 == 0 {
-			jsCheckGeneric(d, rep, "generic-seq")
-			jsCheckGeneric(mutateJs(r, d), rep, "generic-mut")
+			c06JsCheckGeneric(d, rep, "generic-seq")
+			c06JsCheckGeneric(c06MutateJs(r, d), rep, "generic-mut")
 		}
 	}
 	// 2. generic checks on small scope and on the pair sweep
@@ -862,10 +862,10 @@ func c06Oracle(r *Rng, tier string, rep *Report) {
 	if tier == "thorough" {
 		k = 3
 	}
-	allStrings(jsAlphabet, k, func(d []byte) { jsCheckGeneric(d, rep, "generic-exh") })
-	for _, a := range jsVocabulary {
-		for _, b := range jsVocabulary {
-			jsCheckGeneric([]byte(a+b), rep, "generic-pair")
+	allStrings(c06JsAlphabet, k, func(d []byte) { c06JsCheckGeneric(d, rep, "generic-exh") })
+	for _, a := range c06JsVocabulary {
+		for _, b := range c06JsVocabulary {
+			c06JsCheckGeneric([]byte(a+b), rep, "generic-pair")
 		}
 	}
 	// 3. RegExp() re-reads every well-formed literal after '/' or '/='
@@ -875,7 +875,7 @@ func c06Oracle(r *Rng, tier string, rep *Report) {
 	}
 	for it := 0; it < m; it++ {
 		afterEq := r.Chance(1, 4)
-		re := genJsRegex(r, afterEq)
+		re := c06GenJsRegex(r, afterEq)
 		pre := r.PickStr([]string{"", "a=", "x = ", "(", "return ", "1;", "`${", "\n"})
 		post := r.PickStr([]string{"", ";", " ", "\n", ")", ".test(s)", " /2"})
 		d := []byte(pre + re + post)
@@ -915,14 +915,14 @@ func c06Oracle(r *Rng, tier string, rep *Report) {
 	}
 	// 4. comment kind, directly
 	for it := 0; it < 2000; it++ {
-		body := r.PickStr(jsCommentBody) + r.PickStr(jsCommentBody)
+		body := r.PickStr(c06JsCommentBody) + r.PickStr(c06JsCommentBody)
 		hasLT := r.Bool()
 		if hasLT {
-			body += r.PickStr(jsLtPieces) + r.PickStr(jsCommentBody)
+			body += r.PickStr(c06JsLtPieces) + r.PickStr(c06JsCommentBody)
 		}
 		body = strings.ReplaceAll(body, "*/", "* /")
 		d := []byte("/*" + body + "*/")
-		toks, _, p := jsLexAll(d, false)
+		toks, _, p := c06JsLexAll(d, false)
 		want := js.CommentToken
 		if hasLT {
 			want = js.CommentLineTerminatorToken
@@ -936,7 +936,7 @@ func c06Oracle(r *Rng, tier string, rep *Report) {
 
 func init() {
 	props["C06"] = &PropSpec{
-		Models:  []*Model{jslexModel},
+		Models:  []*Model{c06JslexModel},
 		Oracles: []*Oracle{{Name: "c06-js-lexical-grammar", Run: c06Oracle}},
 	}
 }
